@@ -32,13 +32,10 @@ func (w *World) openListeners() error {
 		l := &w.Sc.Listeners[i]
 		ls := &lisState{Idx: i, L: l}
 		if l.Closed {
-			// reserve a port, then close it: connecting yields ECONNREFUSED
-			ln, err := net.Listen("tcp4", l.Addr+":0")
-			if err != nil {
-				return err
-			}
-			ls.Addr = ln.Addr().(*net.TCPAddr).AddrPort()
-			ln.Close()
+			// a port nobody listens on and that the kernel never hands out as an ephemeral port (a
+			// reserved-then-closed ephemeral port can be re-allocated at once, e.g. to the wildcard
+			// listener a TCP SYN run holds): connecting yields ECONNREFUSED
+			ls.Addr = netip.AddrPortFrom(netip.MustParseAddr(l.Addr), 1)
 		} else {
 			ln, err := net.Listen("tcp4", l.Addr+":0")
 			if err != nil {
